@@ -86,6 +86,14 @@ def run_python(lang, code, cwd, path, subs, atomrank):
 
 
 def ragged(case, d):
+    home = os.path.dirname(os.path.abspath(__file__))
+    try:
+        return _ragged(case, d)
+    finally:
+        os.chdir(home)          # never stay inside a case directory that is about to be removed
+
+
+def _ragged(case, d):
     """case: {dtype, indextype, atom, lens, seed}"""
     rng = random.Random(case['seed'])
     sub = os.path.join(d, 'sub')
@@ -104,6 +112,11 @@ def ragged(case, d):
         ra = darr.asraggedarray(path, subs, dtype=dt, indextype=case['indextype'], accessmode='r+')
     else:
         ra = darr.create_raggedarray(path, atom=atom, dtype=dt, indextype=case['indextype'], accessmode='r+')
+    if case['seed'] % 3 == 0:
+        # a handle opened through a RELATIVE path (abspath=True must still name the absolute files)
+        del ra
+        os.chdir(d)
+        ra = darr.RaggedArray(os.path.join('sub', 'ra.darr'), accessmode='r+')
     vnt, vbo = dtype_info(ra._values.dtype)
     int_, ibo = dtype_info(ra._indices.dtype)
     out = dict(vnumtype=vnt, vbyteorder=vbo, inumtype=int_, ibyteorder=ibo, n=len(ra), atom=list(ra.atom),
